@@ -309,6 +309,11 @@ fn build(tier: Tier) -> Vec<Case> {
                     server: Arc::new(move || {
                         let mut st = gen_u2(&mut Chooser::new(&[]), &[12], &[12]);
                         st.num_players = 12;
+                        if which == 0 && !long {
+                            // (one key the library interprets itself, in the first and in the last datagram, with different values)
+                            st.rules.insert(0, (UStr::plain("GamePassword"), UStr::plain("True")));
+                            st.rules.push((UStr::plain("GamePassword"), UStr::plain("False")));
+                        }
                         if twins {
                             let per = st.players.len() / k;
                             st.players[2 * per] = st.players[per - 1].clone();
@@ -380,7 +385,7 @@ impl Prop for C08 {
     fn n_cases(&self, tier: Tier) -> usize { cases(tier).len() }
     fn case_label(&self, tier: Tier, idx: usize) -> String { cases(tier)[idx].label.clone() }
     fn rule(&self) -> String {
-        "both GameSpy entry points (query, query_vars); Unreal 2 lists also with datagrams of 500-1000 bytes and with two equal entries in different datagrams. case = (format: Valve Source split / GoldSrc split of info, players or rules; GameSpy 1 parts; GameSpy 3 splitnum \
+        "both GameSpy entry points (query, query_vars); Unreal 2 lists also with datagrams of 500-1000 bytes and with two equal entries in different datagrams, and with GamePassword named in the first and in the last datagram with different values. case = (format: Valve Source split / GoldSrc split of info, players or rules; GameSpy 1 parts; GameSpy 3 splitnum \
          packets; Unreal 2 rules / players lists) x fragment boundaries (k = 2 at every boundary, k = 3..6 at even field edges, \
          thorough also +-1). The virtual network holds the set of in-flight datagrams; at every receive any of them may arrive \
          next: ALL k! delivery orders are enumerated for k = 2..6 (no sampling), and on top of every order for k <= 4 (and of the \
